@@ -302,7 +302,11 @@ def unit_factor(secs, grams, m3, kind, metric, increment):
     return per_ref * secs[increment]
 
 
-def classify_unit_violation(metric, increment):
+def classify_unit_violation(metric, increment, rel):
+    """the two recorded table inconsistencies are deviations of about 1.3e-4; anything gross (a skipped or
+    doubled conversion, a wrong table entry) keeps its own signature even on those units"""
+    if rel > 1e-3:
+        return f"C16:unit-invariance:gross:{metric}/{increment}"
     if increment != "second":
         return SIG_TIME
     if metric == "mscf":
@@ -362,11 +366,11 @@ def run_rate_sources(ctx, G, M, u, tmp):
                         if kind == "mass" and a > cap_ref[name] * (1 + SAME):
                             ctx.violate("C16:cap-exceeded:" + name, "true rate above the declared maximum (g/s)",
                                         dict(inp, source=name, rate=a, cap_gs=cap_ref[name]))
-                        if rel_diff(a, b) > SAME and bad_unit is None:
+                        if rel_diff(a, b) > SAME and (bad_unit is None or rel_diff(a, b) > rel_diff(*bad_unit[2:])):
                             bad_unit = (name, j, a, b)
                 if bad_unit is not None:
                     name, j, a, b = bad_unit
-                    ctx.violate(classify_unit_violation(metric, increment),
+                    ctx.violate(classify_unit_violation(metric, increment, rel_diff(a, b)),
                                 "the same physical rates written in another unit give different g/s rates",
                                 dict(inp, source=name, draw=j, rate=a, reference_rate=b, rel=rel_diff(a, b)))
                     ctx.count("unit-invariance:differs")
@@ -484,7 +488,7 @@ def run_generation(ctx, G, M, tmp):
                 if [(s, i) for (s, i, _, _) in a["ems"]] != [(s, i) for (s, i, _, _) in b["ems"]]:
                     ctx.violate("C16:scenario-differs-by-unit:dates", "emission dates change with the unit of the emissions file", inp)
                 elif any(rel_diff(x[3], y[3]) > SAME for x, y in zip(a["ems"], b["ems"])):
-                    ctx.violate(classify_unit_violation(metric, increment),
+                    ctx.violate(classify_unit_violation(metric, increment, max(rel_diff(x[3], y[3]) for x, y in zip(a["ems"], b["ems"]))),
                                 "the same physical rates written in another unit give a different scenario (rates)",
                                 dict(inp, rates=[x[3] for x in a["ems"]][:4], rates_other_unit=[y[3] for y in b["ems"]][:4]))
                 if a["ems"]:
@@ -692,8 +696,9 @@ def replay(ctx, data):
                 res[tag] = draw_rates(G, G.load_rate_sources(fo), inp["np_seed"], inp["k"])
             for name in ("smp", "dst"):
                 print(name, "reference", res["ref"][name][0][:4], "| written in", metric, "/", increment, res["unit"][name][0][:4])
-                if any(rel_diff(a, b) > SAME for a, b in zip(res["unit"][name][0], res["ref"][name][0])):
-                    ctx.violate(classify_unit_violation(metric, increment), "different g/s rates", inp)
+                worst = max(rel_diff(a, b) for a, b in zip(res["unit"][name][0], res["ref"][name][0]))
+                if worst > SAME:
+                    ctx.violate(classify_unit_violation(metric, increment, worst), "different g/s rates", inp)
         elif kind == "scenario-unit-case":
             secs, grams, m3 = UNITDEFS
             c = inp["case"]
@@ -708,7 +713,9 @@ def replay(ctx, data):
             if [(x[0], x[1]) for x in a["ems"]] != [(x[0], x[1]) for x in b["ems"]]:
                 ctx.violate("C16:scenario-differs-by-unit:dates", "dates differ", inp)
             elif any(rel_diff(x[3], y[3]) > SAME for x, y in zip(a["ems"], b["ems"])):
-                ctx.violate(classify_unit_violation(inp["metric"], inp["increment"]), "rates differ", inp)
+                ctx.violate(classify_unit_violation(inp["metric"], inp["increment"],
+                                                    max(rel_diff(x[3], y[3]) for x, y in zip(a["ems"], b["ems"]))),
+                            "rates differ", inp)
         elif kind == "seed-case":
             M = Model(ctx)
             seed_case(ctx, G, M, tmp, "r", inp["first_n"], inp["np_seed"], inp.get("grow_to"))
